@@ -25,6 +25,11 @@ SPEC = {
             "name": "calculateTime", "group": "hsearch", "key": "C08",
             "n_quick": 200000, "n_thorough": 5000000, "min_per_shard": 20000,
             "nontrivial": _c08_nontrivial, "stat": _c08_stat,
+        }, {
+            # the budget actually installed as the context deadline and announced to the GUI
+            "name": "installed-deadline", "group": "hsearch", "key": "C08B",
+            "n_quick": 6000, "n_thorough": 300000, "min_per_shard": 400,
+            "nontrivial": _c08_nontrivial, "stat": _c08_stat,
         }],
         "rule": "regression corpus + grid over boundary clocks/increments/movetime/plies + seeded random points "
                 "(both colours, plies 0..699, values up to 2^40 ms); a case is non-trivial when the mover's clock "
